@@ -19,11 +19,20 @@ import (
 	gengotypes "github.com/octohelm/gengo/pkg/types"
 
 	ao "verifharness/internal/c11/fx/a/o"
+	fxany "verifharness/internal/c11/fx/any"
 	bo "verifharness/internal/c11/fx/b/o"
+	fxbool "verifharness/internal/c11/fx/bool"
 	"verifharness/internal/c11/fx/domain/user"
+	fxerror "verifharness/internal/c11/fx/error"
+	fxint "verifharness/internal/c11/fx/int"
+	fxiota "verifharness/internal/c11/fx/iota"
 	fxjson "verifharness/internal/c11/fx/json"
+	fxlen "verifharness/internal/c11/fx/len"
+	fxnew "verifharness/internal/c11/fx/new"
+	fxnil "verifharness/internal/c11/fx/nil"
 	"verifharness/internal/c11/fx/stdref"
 	fxstring "verifharness/internal/c11/fx/string"
+	fxtrue "verifharness/internal/c11/fx/true"
 	v2 "verifharness/internal/c11/fx/v2"
 )
 
@@ -39,6 +48,10 @@ const (
 	pStd  = fxRoot + "stdref"
 )
 
+// fixture packages whose last path segment is a predeclared identifier (besides pStr); each declares type T
+var predeclPkgs = []string{pStr, fxRoot + "error", fxRoot + "any", fxRoot + "int", fxRoot + "bool", fxRoot + "len", fxRoot + "new", fxRoot + "nil",
+	fxRoot + "true", fxRoot + "iota"}
+
 // sources of the fixture packages (each embeds its own file), mirrored into a synthetic module at run time
 var fxSources = map[string]string{
 	"internal/c11/fx/a/o/o.go":            ao.Source,
@@ -48,6 +61,15 @@ var fxSources = map[string]string{
 	"internal/c11/fx/v2/v2.go":            v2.Source,
 	"internal/c11/fx/string/string.go":    fxstring.Source,
 	"internal/c11/fx/stdref/stdref.go":    stdref.Source,
+	"internal/c11/fx/error/error.go":      fxerror.Source,
+	"internal/c11/fx/any/any.go":          fxany.Source,
+	"internal/c11/fx/int/int.go":          fxint.Source,
+	"internal/c11/fx/bool/bool.go":        fxbool.Source,
+	"internal/c11/fx/len/len.go":          fxlen.Source,
+	"internal/c11/fx/new/new.go":          fxnew.Source,
+	"internal/c11/fx/nil/nil.go":          fxnil.Source,
+	"internal/c11/fx/true/true.go":        fxtrue.Source,
+	"internal/c11/fx/iota/iota.go":        fxiota.Source,
 }
 
 func init() {
@@ -57,6 +79,9 @@ func init() {
 		reflect.TypeFor[user.User](), reflect.TypeFor[user.ID](), reflect.TypeFor[v2.Thing](), reflect.TypeFor[fxstring.T](),
 		reflect.TypeFor[time.Duration](), reflect.TypeFor[time.Time](), reflect.TypeFor[url.URL](), reflect.TypeFor[json.RawMessage](),
 		reflect.TypeFor[big.Int](), reflect.TypeFor[atomic.Int64](),
+		reflect.TypeFor[fxerror.T](), reflect.TypeFor[fxany.T](), reflect.TypeFor[fxint.T](), reflect.TypeFor[fxbool.T](), reflect.TypeFor[fxlen.T](),
+		reflect.TypeFor[fxnew.T](), reflect.TypeFor[fxnil.T](), reflect.TypeFor[fxtrue.T](), reflect.TypeFor[fxiota.T](),
+		reflect.TypeFor[ao.List[fxerror.T]](), reflect.TypeFor[ao.Pair[fxint.T, int]](), reflect.TypeFor[ao.Pair[string, fxany.T]](),
 		// generic instantiations (reflect cannot instantiate at run time): named or basic arguments
 		reflect.TypeFor[ao.List[int]](), reflect.TypeFor[ao.List[string]](), reflect.TypeFor[ao.List[byte]](), reflect.TypeFor[ao.List[error]](),
 		reflect.TypeFor[ao.List[ao.Item]](), reflect.TypeFor[ao.List[bo.Item]](), reflect.TypeFor[ao.List[time.Duration]](),
@@ -136,7 +161,7 @@ func loadUniverse(dir string) *universe {
 				return err
 			}
 			uni.u = u
-			for _, p := range []string{pAO, pBO, pJSON, pUser, pV2, pStr, pStd, "time", "net/url", "encoding/json", "math/big", "sync/atomic"} {
+			for _, p := range append([]string{pAO, pBO, pJSON, pUser, pV2, pStd, "time", "net/url", "encoding/json", "math/big", "sync/atomic"}, predeclPkgs...) {
 				if u.Package(p) == nil {
 					return fmt.Errorf("package %s missing from the loaded universe", p)
 				}
